@@ -101,6 +101,10 @@ pub open spec fn opt_pending<R>(r: Option<&mut Reader<R>>) -> Seq<RdItem> {
     match r { Some(x) => rd_pending(*x), None => Seq::empty() }
 }
 #[verifier::prophetic]
+pub open spec fn opt_pos_final<R>(r: Option<&mut Reader<R>>) -> u64 {
+    match r { Some(x) => rd_pos(*final(x)), None => 0 }
+}
+#[verifier::prophetic]
 pub open spec fn opt_pending_final<R>(r: Option<&mut Reader<R>>) -> Seq<RdItem> {
     match r { Some(x) => rd_pending(*final(x)), None => Seq::empty() }
 }
@@ -329,6 +333,112 @@ pub broadcast group group_entry_points {
     lemma_abs_fresh,
     lemma_abs_wrapper,
     lemma_abs_kids_mirror,
+}
+
+// ---- C08, second half: WHICH error.  The kind of the first fault in stream order.
+pub ghost enum EK { Fine, Syntax, Attr, Utf8, NoElement }
+pub open spec fn attrs_kind(a: Seq<Option<Seq<u8>>>) -> EK
+    decreases a.len()
+{
+    if a.len() == 0 { EK::Fine } else {
+        match a[0] {
+            None => EK::Attr,
+            Some(k) => if !utf8_ok(k) { EK::Utf8 } else { attrs_kind(a.drop_first()) },
+        }
+    }
+}
+pub open spec fn tag_kind(t: Tag) -> EK { if !utf8_ok(t.name) { EK::Utf8 } else { attrs_kind(t.attrs) } }
+pub open spec fn scan_kind(p: Seq<RdItem>) -> EK
+    decreases p.len()
+{
+    if p.len() == 0 { EK::Fine } else {
+        let rest = p.drop_first();
+        match p[0] {
+            RdItem::Err => EK::Syntax,
+            RdItem::Ev(AbsEv::Eof) => EK::Fine,
+            RdItem::Ev(AbsEv::End) => EK::Fine,
+            RdItem::Ev(AbsEv::Comment) => scan_kind(rest),
+            RdItem::Ev(AbsEv::Decl) => scan_kind(rest),
+            RdItem::Ev(AbsEv::PI) => scan_kind(rest),
+            RdItem::Ev(AbsEv::DocType) => scan_kind(rest),
+            RdItem::Ev(AbsEv::Text(b)) => if utf8_ok(b) { scan_kind(rest) } else { EK::Utf8 },
+            RdItem::Ev(AbsEv::CData(b)) => if utf8_ok(b) { scan_kind(rest) } else { EK::Utf8 },
+            RdItem::Ev(AbsEv::Empty(t)) => if tag_kind(t) is Fine { scan_kind(rest) } else { tag_kind(t) },
+            RdItem::Ev(AbsEv::Start(t)) => if !(tag_kind(t) is Fine) { tag_kind(t) } else {
+                let inner = scan(rest);
+                if !inner.0 { scan_kind(rest) } else if inner.1.len() < p.len() { scan_kind(inner.1) } else { EK::Fine }
+            },
+        }
+    }
+}
+pub open spec fn err_kind(e: crate::parser::ParserError) -> EK {
+    match e {
+        crate::parser::ParserError::QuickXmlError(_, _) => EK::Syntax,
+        crate::parser::ParserError::AttrError(_) => EK::Attr,
+        crate::parser::ParserError::FromUtf8Error(_) => EK::Utf8,
+        crate::parser::ParserError::ParsingError(_) => EK::NoElement,
+    }
+}
+pub proof fn lemma_attrs_kind(a: Seq<Option<Seq<u8>>>)
+    ensures g_attrs_ok(a) <==> attrs_kind(a) is Fine, !(attrs_kind(a) is Syntax) && !(attrs_kind(a) is NoElement),
+    decreases a.len()
+{
+    if a.len() > 0 {
+        lemma_attrs_ok_step(a);
+        lemma_attrs_kind(a.drop_first());
+    }
+}
+pub proof fn lemma_attrs_kind_step(a: Seq<Option<Seq<u8>>>)
+    requires a.len() > 0,
+    ensures attrs_kind(a) == (match a[0] { None => EK::Attr, Some(k) => if !utf8_ok(k) { EK::Utf8 } else { attrs_kind(a.drop_first()) } }),
+{}
+pub proof fn lemma_tag_kind(t: Tag)
+    ensures g_tag_ok(t) <==> tag_kind(t) is Fine, !(tag_kind(t) is Syntax) && !(tag_kind(t) is NoElement),
+{
+    lemma_attrs_kind(t.attrs);
+}
+/// the verdict oracle and the kind oracle agree
+pub proof fn lemma_scan_kind(p: Seq<RdItem>)
+    ensures scan(p).0 <==> scan_kind(p) is Fine, !(scan_kind(p) is NoElement),
+    decreases p.len()
+{
+    if p.len() > 0 {
+        let rest = p.drop_first();
+        match p[0] {
+            RdItem::Ev(AbsEv::Comment) | RdItem::Ev(AbsEv::Decl) | RdItem::Ev(AbsEv::PI) | RdItem::Ev(AbsEv::DocType) => { lemma_scan_kind(rest); },
+            RdItem::Ev(AbsEv::Text(b)) | RdItem::Ev(AbsEv::CData(b)) => { lemma_scan_kind(rest); },
+            RdItem::Ev(AbsEv::Empty(t)) => { lemma_tag_kind(t); lemma_scan_kind(rest); },
+            RdItem::Ev(AbsEv::Start(t)) => {
+                lemma_tag_kind(t);
+                lemma_scan_kind(rest);
+                lemma_scan_shrinks(rest);
+                if g_tag_ok(t) && scan(rest).0 { lemma_scan_kind(scan(rest).1); }
+            },
+            _ => {},
+        }
+    }
+}
+/// one-event unfoldings of scan_kind (companions of lemma_step_*)
+pub proof fn lemma_kind_skip(p: Seq<RdItem>)
+    requires p.len() > 0, is_ignorable(p[0]),
+    ensures scan_kind(p) == scan_kind(p.drop_first()),
+{}
+pub proof fn lemma_kind_text(p: Seq<RdItem>, b: Seq<u8>)
+    requires p.len() > 0, p[0] == RdItem::Ev(AbsEv::Text(b)) || p[0] == RdItem::Ev(AbsEv::CData(b)),
+    ensures scan_kind(p) == (if utf8_ok(b) { scan_kind(p.drop_first()) } else { EK::Utf8 }),
+{}
+pub proof fn lemma_kind_empty(p: Seq<RdItem>, t: Tag)
+    requires p.len() > 0, p[0] == RdItem::Ev(AbsEv::Empty(t)),
+    ensures scan_kind(p) == (if tag_kind(t) is Fine { scan_kind(p.drop_first()) } else { tag_kind(t) }),
+{}
+pub proof fn lemma_kind_start(p: Seq<RdItem>, t: Tag)
+    requires p.len() > 0, p[0] == RdItem::Ev(AbsEv::Start(t)),
+    ensures
+        !(tag_kind(t) is Fine) ==> scan_kind(p) == tag_kind(t),
+        tag_kind(t) is Fine && !scan(p.drop_first()).0 ==> scan_kind(p) == scan_kind(p.drop_first()),
+        tag_kind(t) is Fine && scan(p.drop_first()).0 ==> scan_kind(p) == scan_kind(scan(p.drop_first()).1),
+{
+    lemma_scan_shrinks(p.drop_first());
 }
 
 } // verus!
